@@ -409,6 +409,9 @@ def obligations(tier):
             o.name = "partition-" + o.name
             obs.append(o)
     obs.append(ob_formats_agree(300))
+    from harness import numtok
+
+    obs.append(numtok.ob_numtostr())
     obs.append(ob_json(ml, T))
     for k in ks:
         obs.append(ob_partition_ieee(k, T))
